@@ -26,6 +26,7 @@ class Run:
         self.struct_of = {}   # pointer id -> struct object id
         self.handle_x = {}    # handle id -> id of the object given to new_handle
         self.pattern = {}     # struct object id -> value written through the pointer
+        self.released = set() # ids explicitly released (and the struct object behind a released pointer)
 
     def new_id(self, obj, kind, hold):
         i = len(self.weak)
@@ -122,6 +123,9 @@ class Run:
                 i = op[1]
                 if self.usable(i):
                     o = self.held[i]
+                    self.released.add(i)
+                    if i in self.struct_of:
+                        self.released.add(self.struct_of[i])
                     if len(op) > 2 and op[2] and isinstance(o, ffi.CData):
                         with o:
                             pass
@@ -193,13 +197,13 @@ class Run:
         for pi, st in self.struct_of.items():
             if self.usable(pi):
                 p = self.held[pi]
-                if self.kind[st] == "KGcp" and self.calls.get(st, 0):
+                if self.kind[st] == "KGcp" and st in self.released:
                     continue        # explicitly released allocation: memory is the allocator's business
                 if p.a != self.pattern[st]:
                     bad.append([pi, int(p.a), self.pattern[st]])
             elif self.usable(st):
                 s = self.held[st]
-                if self.kind[st] == "KGcp" and self.calls.get(st, 0):
+                if self.kind[st] == "KGcp" and st in self.released:
                     continue
                 if s.a != self.pattern[st]:
                     bad.append([st, int(s.a), self.pattern[st]])
